@@ -10,6 +10,9 @@ NOTE = ("Trusted: z3 5.1 (FP obligations: cvc5 1.0.3), the symx proxies and shim
         "library with the real bitstruct). Bounds and everything outside them are listed in "
         "the evidence file and DESIGN.md.")
 CLAIMED = {
+ "C03": ("§5 C03", "PDUs built by an independent reference interpreter from every representable internal value (symbolic) are decoded by the real decoder and re-encoded by the real encoder; the solver decides per path that the result equals the PDU bit for bit, for every atom of the catalogue and 25 nested descriptions; the conversion half reuses C07's exact binary64 round trip for injective compu methods."),
+ "C06": ("§5 C06", "Real EcuVariant layers are built for 10 service sets (shared, nested, equal and empty prefixes, differing lengths, request echoes, NRC-CONST alternatives, global negative responses); every message of each enumerated length is symbolic (prefix-tree bytes value-forked, the rest symbolic) and the set of (service, coding object, values) reported by the real DiagLayer.decode is compared per path with an independent reference matcher; own encodings, decode_response and service_groups are checked for all parameter values."),
+ "C14": ("§5 C14", "The real VariantMatcher runs on real ECU-variant layers against an uninterpreted deterministic ECU (one symbolic byte string per distinct request); per path the selected variant is compared with a spec-level evaluation (first variant with a pattern all of whose expected values equal the values in the responses) over the same symbolic responses, with and without cache; only identification requests may be issued and none twice with caching."),
  "C17": ("§5 C17", "On every path the same encode/decode operation on the same symbolic inputs is run in strict mode, after flipping the flag at run time, and after flipping it back: strict success implies identical lenient success, lenient raises only where strict raised, and flipping back restores the strict outcome; decided by the solver for all values of the C04/C05 input spaces."),
  "C07": ("§5 C07", "The real compu-method objects (IDENTICAL, LINEAR, SCALE-LINEAR, TAB-INTP, RAT-FUNC, SCALE-RAT-FUNC, TEXTTABLE; Limit and compare_odx_values) are executed on a symbolic value (8-bit quick / 12-16-bit thorough integers, or a binary64 grid k/4) under an exact IEEE-754 binary64 model of Python float arithmetic; validity is compared with the declared limits, integer results with 'a nearest integer of the exact rational formula' in wide bit-vectors, float results with the reference formula; injective methods must round-trip. FP obligations are decided by cvc5, the rest by z3."),
  "C05": ("§5 C05", "The whole message is symbolic: every byte string of each enumerated length is decoded by the real Request.decode for every catalogue description, and by DiagLayer.decode on the shipped somersault database (lengths 0..3 quick / 0..4 thorough; the bytes that walk the prefix-tree dictionaries are value-forked by the engine, the rest stays symbolic). On every path the outcome must be a result or DecodeError, and messages shorter than the reference's minimal length must be rejected."),
